@@ -22,7 +22,6 @@ import (
 	"errors"
 	"fmt"
 	"io"
-	"reflect"
 	"runtime"
 	"strconv"
 	"strings"
@@ -397,7 +396,7 @@ func getBoundValueForComponent(r table.Row, bs []string) *table.Cell {
 			cs = append(cs, v)
 		}
 	}
-	if len(cs) == 1 || len(cs) == 2 && reflect.DeepEqual(cs[0], cs[1]) {
+	if len(cs) == 1 || len(cs) == 2 && equalCells(cs[0], cs[1]) {
 		return cs[0]
 	}
 	return nil
